@@ -10,19 +10,20 @@ import (
 // Sorts maps Go types to monomorphic SMT sorts and collects the declarations.
 //
 // Encoding (DESIGN.md 2.3, as built):
-//   bool -> Bool; all integer kinds -> Int (mathematical, A1); string -> String (A2)
-//   float -> Int (opaque id); struct -> datatype; *T (as data) -> Opt_T = none | some(val)
-//   []T -> Slice_T = mk(arr: Array Int T, len: Int, nil: Bool)   (value semantics, A3/A4)
-//   map[K]V -> Map_K_V = mk(dom: Array K Bool, val: Array K V, nil: Bool)
-//   any -> Any; error -> Err; other interfaces -> Iface; func -> Func (Int id)
-//   type parameter T -> uninterpreted sort TP_T
+//
+//	bool -> Bool; all integer kinds -> Int (mathematical, A1); string -> String (A2)
+//	float -> Int (opaque id); struct -> datatype; *T (as data) -> Opt_T = none | some(val)
+//	[]T -> Slice_T = mk(arr: Array Int T, len: Int, nil: Bool)   (value semantics, A3/A4)
+//	map[K]V -> Map_K_V = mk(dom: Array K Bool, val: Array K V, nil: Bool)
+//	any -> Any; error -> Err; other interfaces -> Iface; func -> Func (Int id)
+//	type parameter T -> uninterpreted sort TP_T
 type Sorts struct {
-	decls   []string          // in dependency order
-	done    map[string]bool   // sort name -> declared
-	byType  map[string]string // types.TypeString -> sort name
-	structs map[string]*types.Struct
-	Extra   map[string]*DT // spec-level datatypes (sort decls)
-	inProgress map[string]bool // struct sorts being declared: references back to them are opaque (Int)
+	decls        []string          // in dependency order
+	done         map[string]bool   // sort name -> declared
+	byType       map[string]string // types.TypeString -> sort name
+	structs      map[string]*types.Struct
+	Extra        map[string]*DT  // spec-level datatypes (sort decls)
+	inProgress   map[string]bool // struct sorts being declared: references back to them are opaque (Int)
 	recursiveHit bool
 }
 
@@ -361,7 +362,6 @@ func sortedKeys[V any](m map[string]V) []string {
 	sort.Strings(ks)
 	return ks
 }
-
 
 // typeParamIsString reports whether every type in the constraint's type set has underlying type string (K ~string).
 func typeParamIsString(tp *types.TypeParam) bool {
